@@ -198,6 +198,10 @@ def fstr_eq(interp, a, b):
                 return False
             res.append(interp.symtruth(interp.eq(x[0], y[0])))
         return ops.b_and(*res)
+    from . import fs_model
+    r = fs_model.text_eq(interp, a, b)
+    if r is not NOT_IMPLEMENTED:
+        return r
     raise Unsupported("comparison of a formatted string with a plain string")
 
 
@@ -688,6 +692,8 @@ def concretize(interp, v, limit=24):
 def int_pow(interp, a, b):
     a, b = as_int(a), as_int(b)
     if isinstance(b, SInt):
+        if isinstance(a, int) and a == 2 and interp.ctx.enumerate_values(b.t, 24) is None:
+            return pow2_abstract(interp, b)
         b = concretize(interp, b)
     if b < 0:
         raise Unsupported("negative exponent")
@@ -697,6 +703,22 @@ def int_pow(interp, a, b):
     for _ in range(b):
         r = ops.mul(r, a)
     return r
+
+
+POW2 = z3.Function("pow2", IntSort, IntSort)
+
+
+def pow2_abstract(interp, b):
+    """2 ** b for a symbolic exponent with too many values for a case split: uninterpreted pow2 with
+    pow2(b) >= 1 and pow2(b) > b for b >= 0 (both true of the real function)."""
+    if not interp.ctx.valid(b.t >= 0):
+        raise Unsupported("2 ** (symbolic exponent not provably non-negative)")
+    interp.ctx.trusted.add("pow2: 2**w for an unbounded symbolic w >= 0 is an uninterpreted function with 2**w >= 1, 2**w > w, exact values for w <= 64")
+    t = POW2(b.t)
+    interp.ctx.assume(z3.And(t >= 1, t > b.t, (b.t == 0) == (t == 1)))
+    # exact for 0 <= b <= 64 (keeps counter-models realistic), bounded from below beyond
+    interp.ctx.assume(z3.And(*[z3.Implies(b.t == k, t == 2 ** k) for k in range(65)], z3.Implies(b.t > 64, t > 2 ** 64)))
+    return ops.mk(t, 1, None, 0)
 
 
 def order_cmp(interp, sym, a, b):
